@@ -290,6 +290,9 @@ struct Hit<C> {
 /// Run `runs` seeded cases of `eng` on `ctx.threads` workers and fold the results into `report`.
 pub fn run_part<E: Engine>(ctx: &Ctx, eng: &E, runs: u64, report: &mut Report) {
     panics::install();
+    // debugging aid: VERIF_ONLY_SEED=<run seed> executes (and minimises) exactly that run
+    let only_seed: Option<u64> = std::env::var("VERIF_ONLY_SEED").ok().and_then(|s| s.parse().ok());
+    let runs = if only_seed.is_some() { 1 } else { runs };
     let t0 = Instant::now();
     let next = AtomicU64::new(0);
     let stop = AtomicBool::new(false);
@@ -356,7 +359,7 @@ pub fn run_part<E: Engine>(ctx: &Ctx, eng: &E, runs: u64, report: &mut Report) {
                     if i >= runs {
                         break;
                     }
-                    let seed = mix(ctx.root_seed, label, i);
+                    let seed = only_seed.unwrap_or_else(|| mix(ctx.root_seed, label, i));
                     let case = eng.generate(i, seed, ctx.tier);
                     slots[w].2.store(i, Ordering::Relaxed);
                     slots[w].0.store(seed.wrapping_add(1).max(1), Ordering::Relaxed);
@@ -386,8 +389,8 @@ pub fn run_part<E: Engine>(ctx: &Ctx, eng: &E, runs: u64, report: &mut Report) {
                         let mut h = hits.lock().unwrap();
                         for v in out.violations {
                             let sig = v.signature();
-                            if !h.iter().any(|x| x.v.signature() == sig) && h.len() < 8 {
-                                if ctx.known.lookup(&ctx.prop, &sig).is_none() {
+                            if !h.iter().any(|x| x.v.signature() == sig) && h.len() < 24 {
+                                if ctx.known.lookup(&ctx.prop, &sig).is_none() && std::env::var("VERIF_KEEP_GOING").is_err() {
                                     // an unlisted violation fails the check; no need to finish the batch
                                     stop.store(true, Ordering::Relaxed);
                                 }
@@ -419,7 +422,8 @@ pub fn run_part<E: Engine>(ctx: &Ctx, eng: &E, runs: u64, report: &mut Report) {
     }
     for h in hits {
         let sig = h.v.signature();
-        let (min_case, used) = minimise(eng, h.case.clone(), h.seed, &sig, 300);
+        let budget = std::env::var("VERIF_MINIMISE_BUDGET").ok().and_then(|s| s.parse().ok()).unwrap_or(300);
+        let (min_case, used) = minimise(eng, h.case.clone(), h.seed, &sig, budget);
         // the minimised case must reproduce, twice, or the harness is not deterministic
         let mut final_v = None;
         let mut ok = true;
@@ -488,4 +492,35 @@ pub fn replay_case<E: Engine>(eng: &E, file: &Value) -> Result<(bool, Vec<String
         println!("  replayed: {} — {} (at {})", v.signature(), v.detail, v.at);
     }
     Ok((sigs.iter().any(|s| *s == want), sigs))
+}
+
+/// Determinism self-test (DESIGN §8): execute `n` seeded cases twice each, on the worker pool, and compare
+/// trace hash, verdict and counters. Returns the seeds whose two executions differ.
+pub fn determinism_check<E: Engine>(ctx: &Ctx, eng: &E, n: u64) -> Vec<(u64, String)> {
+    panics::install();
+    let next = AtomicU64::new(0);
+    let label = format!("{}/{}", ctx.prop, eng.name());
+    let bad: Mutex<Vec<(u64, String)>> = Mutex::new(Vec::new());
+    std::thread::scope(|s| {
+        for _ in 0..ctx.threads {
+            s.spawn(|| {
+                loop {
+                    let i = next.fetch_add(1, Ordering::Relaxed);
+                    if i >= n {
+                        break;
+                    }
+                    let seed = mix(ctx.root_seed, &label, i);
+                    let case = eng.generate(i, seed, ctx.tier);
+                    let a = exec_guarded(eng, &case, seed);
+                    let b = exec_guarded(eng, &case, seed);
+                    let sa: Vec<String> = a.violations.iter().map(|v| v.signature()).collect();
+                    let sb: Vec<String> = b.violations.iter().map(|v| v.signature()).collect();
+                    if a.trace_hash != b.trace_hash || sa != sb || a.stats.0 != b.stats.0 {
+                        bad.lock().unwrap().push((seed, format!("hash {:016x} vs {:016x}; violations {sa:?} vs {sb:?}", a.trace_hash, b.trace_hash)));
+                    }
+                }
+            });
+        }
+    });
+    bad.into_inner().unwrap()
 }
